@@ -226,7 +226,7 @@ impl Check for Lifecycle {
             ("C06", "thorough") => 1_500_000,
             ("C06", _) => 20_000,
             ("C05", "thorough") => 600_000,
-            ("C07", "thorough") => 250_000,
+            ("C07", "thorough") => 120_000,
             ("C28", "thorough") => 800_000,
             ("C05", _) => 10_000,
             (_, "thorough") => 400_000,
